@@ -10,7 +10,8 @@ Lemma reach_inv (P : label -> Prop) c s :
 Proof.
   intros Hc HP. apply reachP_ind.
   - split; [|split; [|split]]; [apply tokinv_init|apply sizeinv_init; exact Hc|apply ghostinv_init|apply wfrinv_init].
-  - intros s0 l s1 z _ (I1 & I2 & I3 & I4) Pl Hs. split; [|split; [|split]].
+  - intros s0 l s1 z R0 (I1 & I2 & I3 & I4) Pl Hs. pose proof (reach_nofault P c s0 HP R0) as NF.
+    split; [|split; [|split]].
     + eapply tokinv_step; eauto.
     + eapply sizeinv_step; eauto.
     + eapply ghostinv_step; eauto.
